@@ -23,13 +23,15 @@ BOUNDS = {"quick": {"classes": 6, "depth": "2 + probe of every class"}, "thoroug
 TIME_BUDGET = {"quick": 400, "thorough": 1200}
 STUBS = ["hash(int) -> exact CPython rule (mod 2^61-1, -1 -> -2)", "hash(tuple), hash(str) -> injective",
          "json.dumps(kwargs, sort_keys=True) -> injective canonical rendering"]
-ASSUMPTIONS = ["arguments are integers (hashable, JSON-serialisable)", "instances are kept alive by the caller"]
+ASSUMPTIONS = ["arguments are integers (hashable, JSON-serialisable)",
+               "in the symbolic histories instances are kept alive by the caller (garbage collection is not modelled; "
+               "weakref.WeakValueDictionary is modelled as a dict); one native replay drops its references and collects"]
 EXPLANATION = "bounded histories over several class arrangements with unbounded integer arguments against a reference key map"
 
 
 def configs(tier):
     d = 2 if tier == "quick" else 3
-    return [{"depth": d, "group": g} for g in ("own", "shared", "sub", "custom")]
+    return [{"depth": d, "group": g} for g in ("own", "shared", "sub", "custom")] + [{"depth": 0, "group": "own", "native_gc": True}]
 
 
 def required_markers(tier):
@@ -200,6 +202,29 @@ no_exc = raised is None
 GROUPS = {"own": ["C", "D"], "shared": ["E", "F"], "sub": ["C", "Sub"], "custom": ["G", "C"]}
 
 
+def native_unreferenced(B):
+    """[native replay] the caller keeps NO reference to the constructed instances (garbage collection is outside
+    the symbolic model): a mapping may disappear only through drop / clear"""
+    import gc
+    from edgegraph.structure import singleton
+    counts = {"n": 0}
+
+    class Node(metaclass=singleton.semi_singleton_metaclass()):
+        def __init__(self, x):
+            counts["n"] += 1
+            self.x = x
+    Node(5)
+    gc.collect()
+    exists = singleton.check_semi_singleton_entry_exists(Node, 5) is not None
+    listed = len(list(singleton.get_all_semi_singleton_instances(Node)))
+    Node(5)
+    gc.collect()
+    ok = exists and (listed == 1) and (counts["n"] == 1)
+    singleton.clear_semi_singleton(Node)
+    B.prove("[native replay] a mapping whose instance the caller does not hold stays live until dropped or cleared "
+            "(entry exists: %s, listed: %d, __init__ ran %d times)" % (exists, listed, counts["n"]), ok)
+
+
 def scenario(B, p):
     names = GROUPS[p["group"]]
     ops = []
@@ -222,4 +247,6 @@ def scenario(B, p):
     B.observe("count", out["COUNT"])
     B.reach("history")
     B.prove("no step raises (other than dropping an absent mapping)", out["no_exc"])
+    if p.get("native_gc"):
+        B.native_only(native_unreferenced)
     B.prove("every operation agrees with the per-class reference key map", out["ok"])
